@@ -155,7 +155,7 @@ def c07(tier, hook=None):
     if not hook:
         fmods, fmeta = [], []
         for kind in ("struct", "enum"):
-            for forms in ([0], [1], [2], [3], [4], [5], [0, 6], [6, 1, 2], [3, 0], [5, 4, 6]):
+            for forms in ([0], [1], [2], [3], [4], [5], [0, 6], [6, 1, 2], [3, 0], [5, 4, 6], [6] * 12, [0] * 11):
                 for entry in ("attr", "derive"):
                     fmods.append((len(fmods), rf.clone_fieldwise_module(len(fmods), kind, forms, entry)))
                     fmeta.append((kind, forms, entry))
@@ -226,6 +226,10 @@ def c08(tier, hook=None):
                     if generic and kind == "unit":
                         continue
                     guises.append((n, kind, entry, generic, None))
+    # more than ten fields: positions "10", "11" sort before "2" as text
+    for (n, kind) in ((12, "tuple"), (11, "named")):
+        for entry in ("attr", "derive"):
+            guises.append((n, kind, entry, False, None))
     # explicit bound(...) arguments must not change what the operators compute
     for bounds in ("shared_empty", "this_dd", "this_empty", "field_empty"):
         for (n, kind) in ((2, "tuple"), (3, "named"), (1, "named")):
